@@ -1196,6 +1196,74 @@ def _fragment_attrs_per_node(fi, P, oid, pname):
                     ("the per-atom annotations are applied only under %s" % extra_guards[0]))]
 
 
+def _fragment_attrs_table(fi, P, sets, oid, pname):
+    """the same step through one table: T[node] collects the defaults and then the per-atom annotations, and one
+    set_node_attributes(graph, T) applies it; None if the function is not written like that"""
+    fl, cfg = fi.flow, fi.cfg
+    tcalls = [(c, n) for c, n, _ in sets if len(c.args) == 2 and not c.keywords and isinstance(c.args[1], ast.Name) and c.args[1].id in fl.locals]
+    if len(tcalls) != 1 or len(sets) != 1:
+        return None
+    call, snid = tcalls[0]
+    T = call.args[1].id
+    # locals that are stored as an entry of T: T[k] = e
+    entry_locals = {}
+    for n in cfg.nodes:
+        if n.kind == "stmt" and isinstance(n.ast, ast.Assign) and len(n.ast.targets) == 1:
+            t = n.ast.targets[0]
+            if isinstance(t, ast.Subscript) and isinstance(t.value, ast.Name) and t.value.id == T and isinstance(n.ast.value, ast.Name):
+                entry_locals[n.ast.value.id] = n
+
+    def is_entry(e):
+        if isinstance(e, ast.Subscript) and isinstance(e.value, ast.Name) and e.value.id == T:
+            return "table"
+        if isinstance(e, ast.Name) and e.id in entry_locals:
+            return e.id
+        return None
+    ann, dflt = [], []
+    for n in cfg.nodes:
+        if n.kind != "stmt":
+            continue
+        st = n.ast
+        if isinstance(st, ast.Assign) and len(st.targets) == 1 and isinstance(st.targets[0], ast.Subscript) and is_entry(st.targets[0].value):
+            dflt.append((n, is_entry(st.targets[0].value)))
+        elif isinstance(st, ast.Expr) and isinstance(st.value, ast.Call) and isinstance(st.value.func, ast.Attribute) and st.value.func.attr == "update" and \
+                is_entry(st.value.func.value) and len(st.value.args) == 1 and not st.value.keywords:
+            a = fl.canon(st.value.args[0], n.id)
+            e = elem_of(a)
+            from_p = (a[0] == "sub" and a[1] == P) or (e is not None and e[0] == "value" and strip_wrappers(e[1]) == P)
+            (ann if from_p else dflt).append((n, is_entry(st.value.func.value)))
+    if len(ann) != 1 or not dflt:
+        return None
+    an, akind = ann[0]
+    late = []
+    for d, dkind in dflt:
+        avoid = set()
+        if akind != "table" and dkind == akind:
+            # one entry per iteration, built in a fresh local: only the order inside an iteration counts
+            lps = enclosing_loops(fi, an.id)
+            fresh = [x for x in cfg.nodes if x.kind == "stmt" and isinstance(x.ast, ast.Assign) and len(x.ast.targets) == 1 and
+                     isinstance(x.ast.targets[0], ast.Name) and x.ast.targets[0].id == akind and isinstance(x.ast.value, ast.Dict) and not x.ast.value.keys]
+            if lps and fresh and all(x.id in cfg.loops.get(lps[0].id, set()) and cfg.dominates(x.id, an.id) for x in fresh):
+                avoid = {lps[0].id}
+        if d.id in cfg.reachable_from(an.id, avoid=avoid):
+            late.append(d)
+    applied = cfg.must_pass(cfg.entry, {cfg.exit}, {snid}) and not cfg.path_exists(snid, an.id)
+    # the annotation step is skipped for no atom that has annotations: its only guards are membership tests of the node in P
+    extra = []
+    for test, pol, gid in guards_of(fi, an.id):
+        if cfg.nodes[gid].kind == "if":
+            t = fl.canon(test, gid)
+            if not (pol and t[0] == "cmp" and t[1] == ("in",) and t[2][1] == P):
+                extra.append(ast.unparse(test))
+    ok = not late and applied and not extra
+    return [ob_ok(oid, fi, an.ast, construct="table[node].update(%s[node]) after the defaults; set_node_attributes(graph, table) on every path" % pname,
+                  instance=fi.name + ":applied", reason="annotations written on a fragment atom override the defaults (weight 1, fragname ...)")] if ok else \
+        [ob_fail(oid, fi, an.ast, construct="table[node].update(%s[node])" % pname, instance=fi.name + ":applied",
+                 reason=("a default is written into the entry after the per-atom annotations (line %d)" % late[0].lineno if late else
+                         "the annotations are applied under the extra condition %s" % extra[0] if extra else
+                         "a path returns the fragment without applying the table"))]
+
+
 def prov_fragment_attrs(repo, tier="quick"):
     obs = []
     oid = "PROV.fragment-attrs"
@@ -1221,6 +1289,11 @@ def prov_fragment_attrs(repo, tier="quick"):
                 user.append((call, nid))
             elif a[1] is not None and a[1][0] == "const":
                 defaults.append((call, nid, a[2]))
+        if not user:
+            tab = _fragment_attrs_table(fi, P, sets, oid, pname)
+            if tab is not None:
+                obs += tab
+                continue
         if not user:
             obs.append(ob_fail(oid, fi, construct="no set_node_attributes(graph, %s)" % pname, instance=fi.name + ":applied",
                                reason="the per-atom annotation dict is not written onto the fragment graph with overriding semantics "
